@@ -28,8 +28,8 @@ ASSUMPTIONS = ["node ids in paths exist in the graph (unknown ids are outside th
 
 
 def plan(tier):
-    return {"cases": 1600 if tier == "quick" else 8000, "shards": 16,
-            "shard_budget_s": 300 if tier == "quick" else 1500}
+    return {"cases": 1600 if tier == "quick" else 50000, "shards": 16,
+            "shard_budget_s": 300 if tier == "quick" else 3300}
 
 
 def required(tier):
